@@ -43,11 +43,12 @@ DConfig(mx, sinks) ==      \* quiescent point: thresholds and the maximum length
 DEnable(s) == /\ ~cfg[s].en /\ cfg' = [cfg EXCEPT ![s].en = TRUE] /\ \A t \in Threads : ~inflight[t]
               /\ nextIx' = [nextIx EXCEPT ![s] = [t \in Threads |-> Len(calls[t]) + 1]] /\ UNCHANGED <<closing, inflight, maxLen, calls, lastFile>>
 \* must: sinks the call has to reach; may: sinks it may reach (their disable() overlaps the call); front: sinks it was dispatched to
-DCall(th, seq, lvl, m, fn, file, line, len) ==
+DCall(th, seq, lvl, m, fn, file, line, len, t0) ==    \* t0: clock (microseconds of this execution) read just before the call
   /\ seq = Len(calls[th]) + 1 /\ ~inflight[th] /\ inflight' = [inflight EXCEPT ![th] = TRUE]
   /\ LET P == {s \in Sinks : Passes(s, ClampLevel(lvl), m)} IN
      calls' = [calls EXCEPT ![th] = Append(@, [lvl |-> ClampLevel(lvl), m |-> m, fn |-> fn, file |-> file, line |-> line, len |-> len, max |-> maxLen,
-                                                must |-> {s \in P : ~closing[s]}, may |-> {s \in P : closing[s]}, front |-> {}])]
+                                                must |-> {s \in P : ~closing[s]}, may |-> {s \in P : closing[s]}, front |-> {},
+                                                t0 |-> t0, t1 |-> -1, seen |-> {}])]
   /\ UNCHANGED <<cfg, closing, maxLen, nextIx, lastFile>>
 \* the call is handed to sink s (Sink::handleLog passed the filter; under the global lock of the log front end)
 DFront(s, th) ==
@@ -56,24 +57,29 @@ DFront(s, th) ==
        /\ s \in calls[th][i].must \cup calls[th][i].may /\ s \notin calls[th][i].front           \* only calls that pass, once
        /\ calls' = [calls EXCEPT ![th][i].front = @ \cup {s}]
   /\ UNCHANGED <<cfg, closing, inflight, maxLen, nextIx, lastFile>>
-DRet(th) ==
+DRet(th, t1) ==           \* t1: clock read just after the call returned
   /\ inflight[th] /\ inflight' = [inflight EXCEPT ![th] = FALSE]
-  /\ LET c == calls[th][Len(calls[th])] IN c.must \subseteq c.front                                \* reached every sink it had to reach
-  /\ UNCHANGED <<cfg, closing, maxLen, calls, nextIx, lastFile>>
+  /\ LET c == calls[th][Len(calls[th])] IN
+       /\ c.must \subseteq c.front                                \* reached every sink it had to reach
+       /\ \A x \in c.seen : x <= t1                              \* "time intact": the time a record shows lies within its call
+  /\ calls' = [calls EXCEPT ![th][Len(calls[th])].t1 = t1]
+  /\ UNCHANGED <<cfg, closing, maxLen, nextIx, lastFile>>
 \* index of the next call of th that was dispatched to sink s and is not yet seen in it (0 if none)
 NextPassing(s, th) == LET I == {i \in nextIx[s][th]..Len(calls[th]) : s \in calls[th][i].front} IN
                       IF I = {} THEN 0 ELSE CHOOSE i \in I : \A j \in I : i <= j
 LevelCode(l) == <<70, 69, 87, 78, 73, 73, 68, 84>>[l + 1]     \* F E W N I I D T
-DGot(s, th, lvl, lvlc, m, fn, file, line, len, trunc, head, padOk, tsOk, fi) ==
+DGot(s, th, lvl, lvlc, m, fn, file, line, len, trunc, head, padOk, tsOk, fi, ts) ==   \* ts: the time the record shows
   LET i == NextPassing(s, th) IN
   /\ i # 0
   /\ LET c == calls[th][i] IN
        /\ lvlc = LevelCode(c.lvl) /\ (lvl = -1 \/ lvl = c.lvl) /\ m = c.m /\ fn = c.fn /\ file = c.file /\ line = c.line          \* every field intact
        /\ len = Min(c.len, c.max) /\ trunc = (c.len > c.max)                              \* cut to exactly the maximum, marked
        /\ head = ExpectedHead(th, i, len) /\ padOk /\ tsOk
+       /\ ts >= c.t0 /\ (c.t1 = -1 \/ ts <= c.t1)                 \* the time was sampled during the call
   /\ fi >= lastFile[s] /\ lastFile' = [lastFile EXCEPT ![s] = fi]
-  /\ nextIx' = [nextIx EXCEPT ![s][th] = i + 1]
-  /\ UNCHANGED <<cfg, closing, inflight, maxLen, calls>>
+  /\ nextIx' = [nextIx EXCEPT ![s][th] = NextPassing(s, th) + 1]
+  /\ calls' = [calls EXCEPT ![th][NextPassing(s, th)].seen = @ \cup {ts}]
+  /\ UNCHANGED <<cfg, closing, inflight, maxLen>>
 \* disable() is called: calls in flight that have not been dispatched to s yet may or may not reach it
 DDisableBegin(s) ==
   /\ cfg[s].en /\ ~closing[s] /\ closing' = [closing EXCEPT ![s] = TRUE]
